@@ -265,6 +265,22 @@ thread_local!
 {
     static CTX: RefCell<Option<(Arc<Inner>, usize)>> = RefCell::new(None);
     static IN_HARNESS_PANIC_OK: RefCell<bool> = RefCell::new(false);
+    static LAST_PANIC: RefCell<Option<String>> = RefCell::new(None);
+}
+
+/// Runs `f`, turning a panic (of the code under test) into Err(message) without noise.
+pub fn catch_quiet<T>(f: impl FnOnce() -> T) -> Result<T, String>
+{
+    install_panic_hook();
+    let was = IN_HARNESS_PANIC_OK.with(|q| std::mem::replace(&mut *q.borrow_mut(), true));
+    LAST_PANIC.with(|p| *p.borrow_mut() = None);
+    let r = std::panic::catch_unwind(std::panic::AssertUnwindSafe(f));
+    IN_HARNESS_PANIC_OK.with(|q| *q.borrow_mut() = was);
+    match r
+    {
+        Ok(v) => Ok(v),
+        Err(_) => Err(LAST_PANIC.with(|p| p.borrow_mut().take()).unwrap_or_else(|| "panic (no message)".to_string())),
+    }
 }
 
 fn ctx() -> Option<(Arc<Inner>, usize)>
@@ -436,7 +452,15 @@ pub fn install_panic_hook()
                 return;
             }
             let quiet = IN_HARNESS_PANIC_OK.with(|q| *q.borrow());
-            if !quiet
+            if quiet
+            {
+                let msg = if let Some(s) = info.payload().downcast_ref::<&str>() { s.to_string() }
+                    else if let Some(s) = info.payload().downcast_ref::<String>() { s.clone() }
+                    else { "<non-string panic>".to_string() };
+                let loc = info.location().map(|l| format!("{}:{}", l.file(), l.line())).unwrap_or_default();
+                LAST_PANIC.with(|p| *p.borrow_mut() = Some(format!("{} at {}", msg, loc)));
+            }
+            else
             {
                 prev(info);
             }
